@@ -131,6 +131,17 @@ CLAIMS = {
              "decided on the implementation, not proved (numpy argsort of the labels is not modelled); the link between the abstract blocks F,D,M of the fermion theorem and "
              "majorana_to_fermion_ham's slicing is by the numerical check.",
         ref="§7 C07"),
+    "C18": dict(
+        technique="Lean 4 proof (Mathlib matrices: conjugate-transpose and trace identities, reindexing, diagonal conjugation) + exact rational correspondence",
+        text="Kernel-checked theorems for every finite index type, every Hermitian P and real diagonal a, b, with markerMat = P·diag(a)·P·diag(b)·P and marker = c·Im diag(markerMat): "
+             "exchanging a and b gives the Hermitian conjugate, so the marker changes sign under x↔y; for Hermitian idempotent P the markers sum to zero over all sites; the marker "
+             "follows the sites under any relabelling; it is unchanged when P is conjugated by any diagonal ±1 matrix; the crosshair step function is strict (0 at equality). "
+             "Projectors with Gaussian-rational entries of every rank 0..V (rational Gram–Schmidt) on dyadic positions are evaluated exactly (integer arithmetic) by the model for the "
+             "Chern marker and for crosshairs inside, outside and exactly on vertex coordinates, and compared with koala to 1e-10; formula, realness, zero sum, x↔y antisymmetry, "
+             "relabelling and gauge invariance are evaluated on the implementation for V up to 60 incl. spectral projectors of Majorana Hamiltonians.",
+        note="Trusted: Lean kernel/Mathlib/standard axioms; harness; numpy complex matrix products (1e-10). The constant 4π is abstract in the theorems (it enters no symmetry). The "
+             "list-based exact evaluator and the Mathlib definition are the same formula by inspection, not by a Lean lemma.",
+        ref="§7 C18"),
 }
 
 PENDING_REASON = "check not built yet in this revision (work in progress; see DESIGN.md §7 for the planned Lean model and tie)"
